@@ -693,7 +693,8 @@ def pct_part(shard, n_cases, seed):
         part.count(small, nontrivial=st_[0] >= 1, classes=("priority-schedule", "priority-schedule:" + kind, "priority-schedule after pressure" if pressure else "priority-schedule cold"))
         part.extra["switches"] = part.extra.get("switches", 0) + st_[0]
         part.extra["line_events"] = part.extra.get("line_events", 0) + st_[1]
-    return part
+    part.reservoir.pop("pct", None)      # hundreds of constructions per case under a line tracer: not re-run in the other interpreter modes
+    return part                          # (under the pure-Python decimal module one case takes minutes); 'pressure' and 'schedule' cases are
 
 
 def stress_part(shard, n, seed):
